@@ -99,14 +99,39 @@ def recognise(A, cname):
             recv = strip_views(pos[0])
             if recv is M or (recv.op == 'refine' and strip_views(recv.args[0]) is M):
                 L.e_calls.append(e)
-    # guard of the E-step: exactly "a model exists" (`model is not None`, or the equivalent test on the running index)
+    # peeled form: the first M-step (on the initial affiliation) stands in front of the loop, which then runs range(1, iterations) with an
+    # unconditional E-step:   model = m_step(init);  for _ in range(1, iterations): aff = e_step(model); model = m_step(aff)
+    L.peeled = False
+    mi = strip_views(L.model_init)
+    if isinstance(mi, T) and mi.op == 'call' and call_parts(mi)[0] == mname and it is not None:
+        n_, pos_, kw_ = call_parts(it)
+        if n_ == 'builtin.range' and len(pos_) == 2 and const_val(strip_views(pos_[0])) == 1 and strip_views(pos_[1]).op == 'param' and strip_views(pos_[1]).args[0] == 'iterations':
+            L.peeled = True
+            L.range_ok = True
+            L.first_m_call = mi
+            if others and all(isinstance(x, T) and x.op == 'const' and x.args[0] is None for x in others) and len(mus) == 1:
+                L.problems = [p for p in L.problems if p[0] != 'return']       # `if iterations < 1: return None` in front
+    # guard of the E-step: exactly "a model exists" (`model is not None`, or the equivalent test on the running index); none in the peeled form
     L.e_guard_ok = []
     for e in L.e_calls:
-        inner = [gd for gd in e.guards if not (gd[0].op == 'nondet')]
+        inner = inner_guards(L, e)
         tests = [later_iteration_test(L, c, p) for c, p in inner]
-        ok = bool(inner) and any(r is True for r in tests) and all(r is True for r in tests)
+        if L.peeled:
+            ok = not inner
+        else:
+            ok = bool(inner) and any(r is True for r in tests) and all(r is True for r in tests)
         L.e_guard_ok.append(ok)
     return L
+
+
+def inner_guards(L, e):
+    """the conditions an event of the loop body runs under INSIDE the loop (guards that enclose the whole loop do not count)"""
+    gs = list(e.guards)
+    for i, (c, _) in enumerate(gs):
+        if c.op == 'nondet' and getattr(c, 'node', None) is L.loop.node:
+            gs = gs[i + 1:]
+            break
+    return [gd for gd in gs if gd[0].op != 'nondet']
 
 
 def m_step_arg(L, name=None, pos=None):
@@ -115,6 +140,13 @@ def m_step_arg(L, name=None, pos=None):
         return kw[name]
     if pos is not None and pos < len(p):
         return p[pos]
+    return None
+
+
+def m_step_arg_of(call, name):
+    n, p, kw = call_parts(call)
+    if name in kw:
+        return kw[name]
     return None
 
 
